@@ -135,6 +135,82 @@ class StencilLemmas(Contract):
         return obs
 
 
+class SplitDiffCombine(Contract):
+    """operators._split_diff_combine(array, valid, order, dx) for a CONCRETE validity mask (every mask of every line length up
+    to the bound) and SYMBOLIC real values and spacing: every maximal run of valid cells is differentiated on its own with
+    the stencils of _1d_diff (zero for invalid cells and for runs not longer than the order; no value outside the run enters).
+    Bounded in the line length, exhaustive over masks, unbounded in the values: a proof per (length, mask)."""
+    name = 'operators._split_diff_combine'
+    qual = ('operators', '_split_diff_combine')
+    func = 'operators:_split_diff_combine'
+    no_crosscheck = False
+    LMAX = {'quick': 6, 'thorough': 9}
+
+    def configs(s, tier):
+        out = []
+        for L in range(1, s.LMAX[tier] + 1):
+            for bits in range(2 ** L):
+                for order in (1, 2):
+                    out.append({'L': L, 'mask': format(bits, f'0{L}b'), 'order': order})
+        return out
+
+    def pre_state(s, E, cfg):
+        import numpy as np
+        L, mask = cfg['L'], [c == '1' for c in cfg['mask']]
+        dx = inp(E, 'dx', 'float')
+        arr = E.sym_array('a', [L], 'float')
+        valid = E.data_array(np.array(mask, dtype=bool), 'bool', 'valid')
+        st = State(None, [arr, valid, cfg['order'], dx], {})
+        st.assume = [R(dx) > 0]
+        st.mask = mask
+        return st
+
+    def use_contracts(s):
+        return []          # everything inlined: _split_array_on_idx and _1d_diff are executed, not assumed
+
+    def frame(s, E, st):
+        return [('array', st.args[0]), ('valid', st.args[1])]
+
+    def post(s, E, st, result):
+        arr, valid, order, dx = st.args
+        mask = st.mask
+        L = len(mask)
+        if isinstance(result, Vec):
+            result = E.to_ndarr(result)
+        if not isinstance(result, NDArr) or len(result.shape) != 1:
+            return [('result is a 1-d array', False)]
+        out = [('one value per cell of the line', result.shape[0] == L)]
+        # maximal runs of valid cells
+        runs, j = [], 0
+        while j < L:
+            if mask[j]:
+                e = j
+                while e < L and mask[e]:
+                    e += 1
+                runs.append((j, e))
+                j = e
+            else:
+                j += 1
+        run_of = {}
+        for (b, e) in runs:
+            for t in range(b, e):
+                run_of[t] = (b, e)
+        a = lambda t: R(arr.at(E, [t]))
+        for t in range(L):
+            r = R(result.at(E, [t]))
+            if t not in run_of:
+                out.append((f'cell {t}: invalid => zero', r == 0))
+                continue
+            b, e = run_of[t]
+            m = e - b
+            if m <= order:
+                out.append((f'cell {t}: run of {m} cell(s), not longer than the order => zero', r == 0))
+                continue
+            fac, rhs = stencil(order, z3.IntVal(m), z3.IntVal(t - b), lambda q_: a(b + z3.simplify(q_).as_long()), dx)
+            out.append((f'cell {t}: stencil of its own run [{b},{e}) only (position {t - b} of {m})', r * z3.simplify(fac) == z3.simplify(rhs)))
+        return out
+
+
 # ------------------------------------------------------------------ the per-line operator as an abstract function
 _SDC = z3.Function('SDC', z3.ArraySort(z3.IntSort(), z3.RealSort()), z3.ArraySort(z3.IntSort(), z3.BoolSort()),
                    z3.IntSort(), z3.IntSort(), z3.RealSort(), z3.IntSort(), z3.RealSort())
@@ -321,7 +397,7 @@ class FieldDiff(Contract):
         return res
 
 
-CONTRACTS = [Diff1d(), StencilLemmas(), FieldDiff()]
+CONTRACTS = [Diff1d(), StencilLemmas(), FieldDiff(), SplitDiffCombine()]
 _BY_NAME = {c.name: c for c in CONTRACTS}
 setup_engine = c03.setup_engine
 
@@ -338,9 +414,11 @@ INLINED = ['Mesh.cell / n / region / bc, Region._dim2index', 'Mesh.indices (map-
 TRUSTED = ['[A] np.gradient (uniform spacing, edge_order 1 / 2) and np.convolve(a, [1,-2,1], "same") on 1-d arrays (conformance-probed each run)',
            'contracts of the constructors, point2index, Mesh.sel, Mesh.pad (C01, C03, C07)']
 ASSUMPTIONS = ['field values are real numbers',
-               'operators._split_diff_combine is a pure function of (line values, line validity, order, dx) returning one value per cell of the line; its segmentation at invalid cells is decided by the bounded tier (exhaustive over masks for L <= 10 / 14)']
-BOUNDED_IN = ['segmentation of a line at invalid cells (operators._split_array_on_idx / _split_diff_combine): line length L <= 10 (quick) / 14 (thorough), all 2^L masks, in the bounded tier']
+               'inside Field.diff, operators._split_diff_combine is used as a pure function of (line values, line validity, order, dx) returning one value per cell of the line; WHAT it computes is proved from its body for every mask of every line length up to the bound (contract operators._split_diff_combine) and checked exhaustively on doubles beyond it']
+BOUNDED_IN = ['segmentation of a line at invalid cells (operators._split_array_on_idx / _split_diff_combine): PROVED for symbolic values and spacing per (line length, mask) for every mask of every length L <= 6 (quick) / 9 (thorough); beyond that (L <= 10 / 14, all 2^L masks) exhaustively on doubles in the bounded tier; unbounded L is not proved']
 MUTANTS = {
+    'split_includes_the_invalid_cell': {'module': 'operators', 'contract': 'operators._split_diff_combine', 'config': {'L': 5, 'mask': '11011', 'order': 1},
+                                        'old': 'array[loc[i] + 1 : loc[i + 1]]', 'new': 'array[max(loc[i], 0) : loc[i + 1]]'},
     'diff_wrong_spacing': {'module': 'field', 'contract': 'Field.diff', 'config': {'ndim': 2, 'nvdim': 2, 'axis': 1, 'order': 1, 'periodic': False, 'restrict2valid': True}, 'expect': 'component 0',
                            'old': '                    order,\n                    field.mesh.cell[direction_idx],', 'new': '                    order,\n                    field.mesh.cell[0],'},
     'diff_ignores_validity': {'module': 'field', 'contract': 'Field.diff', 'config': {'ndim': 2, 'nvdim': 2, 'axis': 0, 'order': 1, 'periodic': False, 'restrict2valid': True}, 'expect': 'component 0',
